@@ -90,7 +90,9 @@ def r1_r2_reshape(ctx):
                     dims, elem = nb
                     dh = [e4.local_hid(d) for d in dims]
                     want = [h for (_, h) in sides[1][1]]
-                    its = [s for s in walk(arm["body"]) if s.get("k") == "let" and s["pat"].get("k") == "bind" and s["init"] is not None and pretty(strip(s["init"])) == "self.get_flat().into_iter()"]
+                    from ..hir import let_table, cpretty
+                    TT_ = let_table(fn["body"])
+                    its = [s for s in walk(arm["body"]) if s.get("k") == "let" and s["pat"].get("k") == "bind" and s["init"] is not None and cpretty(strip(s["init"]), TT_) == "self.get_flat().into_iter()"]
                     el_ok = len(its) == 1 and pretty(elem) == "%s.next().unwrap()" % its[0]["pat"]["name"]
                     okb = dh == want and el_ok
                     detail = "ranges over %s, element %s" % ([pretty(d) for d in dims], short(pretty(elem), 40))
@@ -232,7 +234,9 @@ def r3_constructors(ctx):
     for nm, dims in want.items():
         fn = ctx.fn(T + nm)
         sh = [x for x in walk(fn["body"]) if x.get("k") == "call" and x["callee"].startswith("tensor::Shape::")]
-        got = [pretty(strip(z)) for z in sh[0]["args"]] if sh else []
+        from ..hir import let_table, cpretty
+        TT_ = let_table(fn["body"])
+        got = [cpretty(strip(z), TT_) for z in sh[0]["args"]] if sh else []
         ctx.check("R14.3", "constructor:" + nm, got == dims and sh[0]["callee"].lower().endswith(nm), "constructor-shape:%s:%s" % (nm, ",".join(got)), c.loc(fn), "shape = (%s)" % ", ".join(dims))
     for nm, lit in (("zeros", "0.0"), ("ones", "1.0")):
         fn = ctx.fn(T + nm)
